@@ -1,20 +1,33 @@
 /-
 C12 — driver: replays an implementation trace through the model (correspondence) and the spec (monitor).
-Ops:  set <k> <v> <d> | move <k> <d> | remove <k> | tick | drain      (d in the unit of cfg `interval`)
-Obs:  sorted `k:v` tokens handed to the execute callback by that operation.
+
+Section cfg:  n=<slots> interval=<ticks unit> mode=api|wb|ctor tk=sync|fake
+  mode=api   the real TimingWheel through its public API (NewTimingWheelWithTicker + a harness ticker:
+             tk=sync an unbuffered ticker, tk=fake timex.NewFakeTicker)
+  mode=wb    the run loop is stopped and its handlers setTask/moveTask/removeTask/onTick/drainAll are called
+             directly (a panic inside them is then an observation instead of a crashed process)
+  mode=ctor  NewTimingWheel's argument check
+Ops:  set <k|nil> <v> <d> | move <k|nil> <d> | remove <k|nil> | tick | drain | stop     (d in the unit of `interval`)
+      new <interval> <slots> <execute-is-nil 0|1>                                         (mode=ctor)
+Obs:  sorted `k:v` tokens handed to the execute/drain callback by that operation | err=argument | err=closed |
+      stopped <ticker.Stop calls> | undelivered (tick after Stop) | PANIC … | bad-op | ok | err
 -/
 import GoZero.Base.Trace
-import GoZero.C12.Spec
+import GoZero.C12.Api
 namespace GoZero.C12
 
 open GoZero
 
-def parseOp (interval : Nat) : List String → Option Op
-  | ["set", k, v, d] => do pure (.set (← k.toNat?) (← v.toNat?) ((← d.toNat?) / interval))
-  | ["move", k, d] => do pure (.move (← k.toNat?) ((← d.toNat?) / interval))
-  | ["remove", k] => do pure (.remove (← k.toNat?))
+def parseKey (s : String) : Option (Option Nat) :=
+  if s = "nil" then some none else s.toNat?.map some
+
+def parseCall : List String → Option Call
+  | ["set", k, v, d] => do pure (.setTimer (← parseKey k) (← v.toNat?) (← d.toInt?))
+  | ["move", k, d] => do pure (.moveTimer (← parseKey k) (← d.toInt?))
+  | ["remove", k] => do pure (.removeTimer (← parseKey k))
   | ["tick"] => some .tick
   | ["drain"] => some .drain
+  | ["stop"] => some .stop
   | _ => none
 
 def insertPair (x : Nat × Nat) : List (Nat × Nat) → List (Nat × Nat)
@@ -24,50 +37,212 @@ def insertPair (x : Nat × Nat) : List (Nat × Nat) → List (Nat × Nat)
 def canon (l : List (Nat × Nat)) : String :=
   joinSp ((l.foldr insertPair []).map fun (k, v) => s!"{k}:{v}")
 
-def branchOf (tw : TW) (op : Op) : String :=
+/-- the observation the harness prints for a call, from the result and the state after it. -/
+def render {T : Type} (c : Call) (pre post : ApiG T) (out : Res × List (Nat × Nat)) : String :=
+  match out.1 with
+  | .errArgument => "err=argument"
+  | .errClosed => "err=closed"
+  | .panic => "PANIC close of closed channel"
+  | .ok => canon out.2
+  | .unit =>
+    match c with
+    | .stop => s!"stopped {post.tickerStops}"
+    | .tick => if pre.stopped then "undelivered" else canon out.2
+    | _ => canon out.2
+
+/-- calls the white-box mode cannot express (it bypasses the argument checks and has no running loop). -/
+def wbUnsupported : Call → Bool
+  | .setTimer key _ d => badDelayKey d key.isNone
+  | .moveTimer key d => badDelayKey d key.isNone
+  | .removeTimer key => key.isNone
+  | .stop => true
+  | _ => false
+
+/-- the request the run loop handles for an accepted call. -/
+def opOf (iv : Nat) : Call → Option Op
+  | .setTimer (some k) v d => if d ≤ 0 then none else some (.set k v (stepsOf iv d))
+  | .moveTimer (some k) d => if d ≤ 0 then none else some (.move k (stepsOf iv d))
+  | .removeTimer (some k) => some (.remove k)
+  | .drain => some .drain
+  | .tick => some .tick
+  | _ => none
+
+/-- auxiliary bookkeeping for the cover counters only (not part of the model): entries flagged `removed`
+that are still parked in a slot, and keys whose entry was carried to another slot by a tick. -/
+structure Aux where
+  ghosts    : List (Nat × Nat) := []     -- (key, slot)
+  relocated : List Nat := []
+
+def branchOf (tw : TW) (aux : Aux) (op : Op) : List String :=
   match op with
-  | .set k _ s =>
-    if hasKey tw k then
+  | .set k _ s0 =>
+    let s := if s0 = 0 then 1 else s0
+    let sub := if s0 = 0 then ["set-below-interval"] else []
+    sub ++
+    (if hasKey tw k then
       match tw.entries.find? (·.key = k) with
-      | some e => match moveCase tw.n tw.tickedPos e.slot (if s = 0 then 1 else s) with
-        | .keep _ _ => if e.slot ≤ tw.tickedPos then "set-existing-keep-wrapped" else "set-existing-keep"
-        | .reinsert _ => "set-existing-reinsert"
-      | none => "set-new"
-    else if s > tw.n then "set-new-multirev" else "set-new"
+      | some e =>
+        let extra :=
+          (if e.diff > 0 then ["retime-pending-diff"] else []) ++
+          (if e.circle > 0 then ["retime-pending-circle"] else []) ++
+          (if (posCircle tw.n tw.tickedPos s).1 = e.slot then
+             (if e.diff > 0 then ["retime-same-slot-pending-diff"] else ["retime-same-slot"]) else []) ++
+          (if aux.relocated.contains k then ["retime-after-relocate"] else []) ++
+          (if s > tw.n then ["retime-multirev"] else []) ++
+          (if s ≥ 2147483647 then ["delay-beyond-32-bits"] else [])
+        (match moveCase tw.n tw.tickedPos e.slot s with
+          | .keep _ _ => if e.slot ≤ tw.tickedPos then "set-existing-keep-wrapped" else "set-existing-keep"
+          | .reinsert _ => "set-existing-reinsert") :: extra
+      | none => ["set-new"]
+    else
+      (if s > tw.n then "set-new-multirev" else "set-new") ::
+        ((if aux.ghosts.any (·.1 = k) then ["set-new-ghost-parked"] else []) ++
+         (if s ≥ 2147483647 then ["delay-beyond-32-bits"] else [])))
   | .move k s =>
-    if s = 0 then "move-immediate" else
+    if s = 0 then [if hasKey tw k then "move-immediate" else "move-immediate-absent"] else
     match tw.entries.find? (·.key = k) with
     | some e =>
       let w := if e.slot ≤ tw.tickedPos then "-oldwrapped" else ""
       let pw := if (posCircle tw.n tw.tickedPos s).1 ≤ tw.tickedPos then "-newwrapped" else ""
-      match moveCase tw.n tw.tickedPos e.slot s with
-      | .keep c _ => (if c = (posCircle tw.n tw.tickedPos s).2 then "move-keep" else "move-keep-circle-1") ++ w ++ pw
-      | .reinsert _ => "move-reinsert" ++ w ++ pw
-    | none => "move-absent"
-  | .remove k => if hasKey tw k then "remove" else "remove-absent"
-  | .tick => "tick"
-  | .drain => "drain"
+      let extra :=
+        (if e.diff > 0 then ["retime-pending-diff"] else []) ++
+        (if e.circle > 0 then ["retime-pending-circle"] else []) ++
+        (if (posCircle tw.n tw.tickedPos s).1 = e.slot then
+           (if e.diff > 0 then ["retime-same-slot-pending-diff"] else ["retime-same-slot"]) else []) ++
+        (if aux.relocated.contains k then ["retime-after-relocate"] else []) ++
+        (if s > tw.n then ["retime-multirev"] else []) ++
+        (if s ≥ 2147483647 then ["delay-beyond-32-bits"] else []) ++
+        (if e.circle ≥ 2147483647 / tw.n then ["retime-from-beyond-32-bits"] else [])
+      (match moveCase tw.n tw.tickedPos e.slot s with
+        | .keep c _ => (if c = (posCircle tw.n tw.tickedPos s).2 then "move-keep" else "move-keep-circle-1") ++ w ++ pw
+        | .reinsert _ => "move-reinsert" ++ w ++ pw) :: extra
+    | none => ["move-absent"]
+  | .remove k =>
+    if hasKey tw k then
+      "remove" :: (match tw.entries.find? (·.key = k) with
+        | some e => if e.diff > 0 ∨ e.circle > 0 then ["remove-lazy-pending"] else []
+        | none => [])
+    else ["remove-absent"]
+  | .tick =>
+    let pos := (tw.tickedPos + 1) % tw.n
+    let scanned := tw.entries.filter (·.slot = pos)
+    let g := aux.ghosts.filter (·.2 = pos)
+    "tick" ::
+      ((if scanned.any (·.circle > 0) then ["scan-circle-dec"] else []) ++
+       (if scanned.any (fun e => e.circle = 0 ∧ e.diff > 0) then ["scan-relocate"] else []) ++
+       (if scanned.any (fun e => e.circle > 0 ∧ e.diff > 0) then ["scan-circle-dec-with-diff"] else []) ++
+       (if (scanned.filter (fun e => e.circle = 0 ∧ e.diff = 0)).length ≥ 2 then ["scan-fire-many"] else []) ++
+       (if g.length > 0 then ["scan-ghost"] else []) ++
+       (if g.any (fun x => hasKey tw x.1) then ["scan-ghost-key-live"] else []) ++
+       (if pos = 0 then ["tick-wrap"] else []))
+  | .drain =>
+    if tw.entries.isEmpty then ["drain-empty"] else
+      "drain" :: ((if tw.entries.any (fun e => e.diff > 0 ∨ e.circle > 0) then ["drain-lazy-pending"] else []) ++
+                  (if aux.ghosts.length > 0 then ["drain-ghost-parked"] else []))
 
-def runSection (r : Report) (s : Section) : Report := Id.run do
-  let n := kvNat s.cfg "n" 1
-  let interval := kvNat s.cfg "interval" 1
-  let mut tw := TW.init n
-  let mut sp : Spec.Table := []
+def auxStep (tw : TW) (aux : Aux) (op : Op) : Aux :=
+  match op with
+  | .set k _ s0 =>
+    let s := if s0 = 0 then 1 else s0
+    match tw.entries.find? (·.key = k) with
+    | some e => match moveCase tw.n tw.tickedPos e.slot s with
+      | .keep _ _ => aux
+      | .reinsert _ => { ghosts := (k, e.slot) :: aux.ghosts, relocated := aux.relocated.filter (· ≠ k) }
+    | none => { aux with relocated := aux.relocated.filter (· ≠ k) }
+  | .move k s =>
+    if s = 0 then aux else
+    match tw.entries.find? (·.key = k) with
+    | some e => match moveCase tw.n tw.tickedPos e.slot s with
+      | .keep _ _ => aux
+      | .reinsert _ => { ghosts := (k, e.slot) :: aux.ghosts, relocated := aux.relocated.filter (· ≠ k) }
+    | none => aux
+  | .remove k =>
+    match tw.entries.find? (·.key = k) with
+    | some e => { ghosts := (k, e.slot) :: aux.ghosts, relocated := aux.relocated.filter (· ≠ k) }
+    | none => aux
+  | .tick =>
+    let pos := (tw.tickedPos + 1) % tw.n
+    let moved := (tw.entries.filter (fun e => e.slot = pos ∧ e.circle = 0 ∧ e.diff > 0)).map (·.key)
+    let fired := (tw.entries.filter (fun e => e.slot = pos ∧ e.circle = 0 ∧ e.diff = 0)).map (·.key)
+    { ghosts := aux.ghosts.filter (·.2 ≠ pos),
+      relocated := moved ++ aux.relocated.filter (fun k => !fired.contains k) }
+  | .drain => {}
+
+def apiCover {T : Type} (a : ApiG T) (c : Call) (out : Res × List (Nat × Nat)) : List String :=
+  match out.1 with
+  | .errArgument =>
+    (match c with
+     | .setTimer key _ d => (if key.isNone then ["api-nil-key"] else []) ++ (if d ≤ 0 then ["api-delay-nonpositive"] else [])
+     | .moveTimer key d => (if key.isNone then ["api-nil-key"] else []) ++ (if d ≤ 0 then ["api-delay-nonpositive"] else [])
+     | _ => ["api-nil-key"]) ++ (if a.stopped then ["api-bad-argument-after-stop"] else [])
+  | .errClosed => ["api-closed"]
+  | .panic => ["api-stop-twice"]
+  | .unit => (match c with
+     | .stop => ["api-stop"]
+     | .tick => if a.stopped then ["api-tick-after-stop"] else []
+     | _ => [])
+  | .ok => []
+
+def runCtor (r : Report) (s : Section) : Report := Id.run do
   let mut r := r
   for l in s.lines do
-    match parseOp interval l.op with
+    match l.op with
+    | ["new", iv, n, en] =>
+      match iv.toInt?, n.toInt?, en.toNat? with
+      | some iv, some n, some en =>
+        r := { r with ops := r.ops + 1 }
+        let bad := badCtor iv n (en ≠ 0)
+        r := r.addCover (if bad then "ctor-rejected" else "ctor-accepted")
+        let want := if bad then "err" else "ok"
+        let impl := joinSp l.obs
+        if want ≠ impl then
+          r := r.mismatch s.idx l.idx want impl
+          r := r.violation s.idx l.idx s!"spec=[{want}] impl=[{impl}] op=[{joinSp l.op}]"
+      | _, _, _ => r := r.mismatch s.idx l.idx "bad-op" (joinSp l.op)
+    | _ => r := r.mismatch s.idx l.idx "bad-op" (joinSp l.op)
+  return r
+
+def runSection (r : Report) (s : Section) : Report := Id.run do
+  let mode := kvStr s.cfg "mode" "api"
+  if mode = "ctor" then return runCtor (r.addCover "mode-ctor") s
+  let n := kvNat s.cfg "n" 1
+  let interval := kvNat s.cfg "interval" 1
+  let wb := mode = "wb"
+  let mut a : Api := Api.init interval n
+  let mut sp : Spec.Api := Spec.Api.init interval
+  let mut aux : Aux := {}
+  let mut r := r.addCover (if wb then "mode-wb" else "mode-api-" ++ kvStr s.cfg "tk" "sync")
+  if kvNat s.cfg "long" 0 = 1 then r := r.addCover "long-run-section"
+  let mut maxLive := 0
+  for l in s.lines do
+    match parseCall l.op with
     | none => r := r.mismatch s.idx l.idx "bad-op" (joinSp l.op)
-    | some op =>
+    | some c =>
       r := { r with ops := r.ops + 1 }
-      r := r.addCover (branchOf tw op)
-      let (tw', out) := step tw op
-      let (sp', sout) := Spec.step sp op
       let impl := joinSp l.obs
-      if (out.length > 0) then r := r.addCover "fired" out.length
-      if canon out ≠ impl then r := r.mismatch s.idx l.idx (canon out) impl
-      if canon sout ≠ impl then r := r.violation s.idx l.idx s!"spec=[{canon sout}] impl=[{impl}] op=[{joinSp l.op}]"
-      tw := tw'
-      sp := sp'
+      if wb && wbUnsupported c then
+        if impl ≠ "bad-op" then r := r.mismatch s.idx l.idx "bad-op" impl
+      else
+        let (a', out) := a.step c
+        let (sp', sout) := sp.step c
+        for cv in apiCover a c out do r := r.addCover cv
+        if out.1 = .ok ∨ out.1 = .unit then
+          match opOf interval c with
+          | some op =>
+            if ¬ a.stopped then
+              for cv in branchOf a.inner aux op do r := r.addCover cv
+              aux := auxStep a.inner aux op
+          | none => pure ()
+        if (out.2.length > 0) then r := r.addCover "fired" out.2.length
+        let m := render c a a' out
+        let sm := render c sp sp' sout
+        if m ≠ impl then r := r.mismatch s.idx l.idx m impl
+        if sm ≠ impl then r := r.violation s.idx l.idx s!"spec=[{sm}] impl=[{impl}] op=[{joinSp l.op}]"
+        a := a'
+        sp := sp'
+        if a.inner.entries.length > maxLive then maxLive := a.inner.entries.length
+  if maxLive ≥ 1000 then r := r.addCover "live-timers-1000+"
+  if maxLive ≥ 10 then r := r.addCover "live-timers-10+"
   return r
 
 def driver (secs : List Section) : Report := secs.foldl runSection {}
